@@ -59,7 +59,9 @@ int expr_match_guard_tailrec(unsigned int syn_level, symtab * stab,
             expr_tailrec(syn_level, stab, match_value->guard_item.expr_value, op);
         break;
         case MATCH_GUARD_RECORD:
-            expr_tailrec(syn_level, stab, match_value->guard_record.expr_value, op);
+            expr_tailrec(syn_level,
+                         (match_value->guard_record.guard != NULL && match_value->guard_record.guard->stab != NULL) ? match_value->guard_record.guard->stab : stab,
+                         match_value->guard_record.expr_value, op);
         break;
         case MATCH_GUARD_ELSE:
             expr_tailrec(syn_level, stab, match_value->guard_else.expr_value, op);
